@@ -48,8 +48,10 @@ theorem loop_ws (rec : RecT) (opts : Option GOpts) (v : JVal) : ∀ (ws : List C
 
 /-- generated Parse on (whitespace, then the raw text of v): with a recursion parameter that is right at
     `fuel`, the result is right at `fuel + 1` -/
-theorem Parse_level (rec : RecT) (o : POpts) (fuel : Nat) (hrec : RecOK rec o fuel) (hk : KindHyps rec o fuel)
-    (ws : List Char) (hws : ∀ c ∈ ws, isWs c = true) (v : JVal) (hfin : ∀ ms, v = .obj ms → PolyFin ms) (n : Nat) :
+theorem Parse_level (rec : RecT) (o : POpts) (fuel : Nat) (hrec : RecOK rec o fuel)
+    (ws : List Char) (hws : ∀ c ∈ ws, isWs c = true) (v : JVal) (hk : ∀ ms, v = .obj ms → KindHyps rec o fuel ms) (hfin : ∀ ms, v = .obj ms → PolyFin ms)
+    (hJg : ∀ ms items, v = .obj ms → (scanKeys ms).geometries = some (.arr items) → ∀ x ∈ items, JOK x = true)
+    (hJf : ∀ ms items, v = .obj ms → (scanKeys ms).features = some (.arr items) → ∀ x ∈ items, JOK x = true) (n : Nat) :
     ∃ g, PGen.Parse (mops rec) (ws.length + 1 + n) (ws.map Piece.ch ++ [Piece.doc v]) (some (optsG o)) = some g ∧
       AgreeU g (parse o (fuel + 1) v) := by
   unfold PGen.Parse
@@ -58,7 +60,7 @@ theorem Parse_level (rec : RecT) (o : POpts) (fuel : Nat) (hrec : RecOK rec o fu
   simp only
   refine ⟨_, rfl, ?_⟩
   cases v with
-  | obj ms => exact parseJSON_eq rec o fuel hrec hk ms (hfin ms rfl)
+  | obj ms => exact parseJSON_eq rec o fuel hrec ms (hk ms rfl) (hfin ms rfl) (fun items => hJg ms items rfl) (fun items => hJf ms items rfl)
   | null => simp [parse, AgreeU, errU, errG]
   | tru => simp [parse, AgreeU, errU, errG]
   | fls => simp [parse, AgreeU, errU, errG]
